@@ -36,6 +36,10 @@ struct Req {
     cpu_budget_ms: Option<u64>,
     #[serde(default)]
     debug_types: bool,
+    /// file sets compiled on the same worker thread before the request itself (results discarded):
+    /// earlier compilations of one session / process must not influence the result
+    #[serde(default)]
+    warmup: Option<Vec<BTreeMap<String, String>>>,
 }
 fn default_entry() -> String {
     "entry.ts".to_string()
@@ -125,6 +129,16 @@ fn handle(req: Req) -> (Value, bool) {
         .stack_size(64 << 20)
         .spawn(move || {
             let _ = tid_tx.send(current_tid());
+            if let Some(ws) = &req.warmup {
+                for w in ws {
+                    let mut pre = req.clone();
+                    pre.files = w.clone();
+                    pre.warmup = None;
+                    pre.order = None;
+                    let _ = std::panic::catch_unwind(std::panic::AssertUnwindSafe(|| run(&pre)));
+                    let _ = take_panic();
+                }
+            }
             let r = std::panic::catch_unwind(std::panic::AssertUnwindSafe(|| run(&req)));
             let cpu = thread_cpu_ms();
             let v = match r {
